@@ -43,6 +43,8 @@ type Scenario struct {
 	// MaxRuns caps the schedules explored for this scenario (0: the run's own bound); used by the scenarios that
 	// let real time go by
 	MaxRuns int `json:"maxruns,omitempty"`
+	// MaxPre raises the pre-emption bound for this scenario (0: the run's own bound)
+	MaxPre int `json:"maxpre,omitempty"`
 }
 
 const hdrIn = `<stream:stream from="example.net" to="me@example.net" id="123" version="1.0" xmlns="jabber:client" xmlns:stream="http://etherx.jabber.org/streams">`
@@ -81,8 +83,20 @@ func abstractKind(k string) string {
 		return "close"
 	case "sendc", "encodec":
 		return "txc"
+	case "twclose2":
+		return "sclose"
+	case "twwrite2":
+		return "stx"
 	}
 	return "tx"
+}
+
+// handles are the token writers a goroutine has closed: it may use them again ("twclose2", "twwrite2").
+type handles struct {
+	last xmlstream.TokenWriteFlushCloser
+	// gate is a yield point of the application itself: between the Close of a token writer and the next use of the
+	// dead handle other goroutines run
+	gate func(point string)
 }
 
 func errClass(err error) string {
@@ -120,7 +134,7 @@ func filler(mark string, big bool) string {
 	return strings.TrimSpace(strings.Repeat(mark+" ", n))
 }
 
-func doCall(sess *xmpp.Session, kind, mark string, big bool) error {
+func doCall(sess *xmpp.Session, kind, mark string, big bool, hs *handles) error {
 	ctx := context.Background()
 	text := filler(mark, big)
 	body := func() xml.TokenReader {
@@ -183,6 +197,32 @@ func doCall(sess *xmpp.Session, kind, mark string, big bool) error {
 		if first == nil {
 			note(err)
 		}
+		hs.last = w
+		return first
+	case "twclose2":
+		// Close once more on a token writer this goroutine has closed already (the explicit Close plus a deferred one)
+		if hs.last == nil {
+			panic("scenario: twclose2 without a closed token writer")
+		}
+		hs.gate("app.twclose2")
+		return hs.last.Close()
+	case "twwrite2":
+		// a whole element written (and flushed) through a token writer this goroutine has closed already
+		if hs.last == nil {
+			panic("scenario: twwrite2 without a closed token writer")
+		}
+		hs.gate("app.twwrite2")
+		w := hs.last
+		start := xml.StartElement{Name: xml.Name{Local: "message"}, Attr: []xml.Attr{{Name: xml.Name{Local: "id"}, Value: mark}}}
+		var first error
+		for _, tok := range []xml.Token{start, xml.CharData(text), start.End()} {
+			if err := w.EncodeToken(tok); err != nil && first == nil {
+				first = err
+			}
+		}
+		if err := w.Flush(); err != nil && first == nil {
+			first = err
+		}
 		return first
 	case "close":
 		return sess.Close()
@@ -196,14 +236,39 @@ func itemBytes(it string, n int) string {
 		return fmt.Sprintf("<message id='plain%d'><body>x</body></message>", n)
 	case "stanza_reply":
 		return fmt.Sprintf("<message id='reply%d'><body>x</body></message>", n)
-	case "stanza_herr":
-		return fmt.Sprintf("<message id='herr%d'><body>x</body></message>", n)
+	case "stanza_heof":
+		return fmt.Sprintf("<message id='heof%d'><body>x</body></message>", n)
 	case "close":
 		return "</stream:stream>"
 	case "streamerr":
 		return "<stream:error><policy-violation xmlns='urn:ietf:params:xml:ns:xmpp-streams'/></stream:error>"
 	}
+	if strings.HasPrefix(it, "stanza_herr") {
+		// the kind of error the handler returns travels in the id
+		return fmt.Sprintf("<message id='herr%s%d'><body>x</body></message>", strings.TrimPrefix(strings.TrimPrefix(it, "stanza_herr"), "_"), n)
+	}
 	panic("unknown item " + it)
+}
+
+// handlerError is the error a handler returns for an item "stanza_herr[_kind]".
+func handlerError(kind string) error {
+	switch kind {
+	case "":
+		return errors.New("handler failed")
+	case "weof":
+		return fmt.Errorf("handler: no payload in the element: %w", io.EOF)
+	case "ueof":
+		return io.ErrUnexpectedEOF
+	case "st":
+		return stanza.Error{Type: stanza.Cancel, Condition: stanza.BadRequest}
+	case "ctx":
+		return fmt.Errorf("handler: %w", context.DeadlineExceeded)
+	case "se":
+		return stream.PolicyViolation
+	case "wse":
+		return fmt.Errorf("handler: %w", stream.BadFormat)
+	}
+	panic("unknown handler error kind " + kind)
 }
 
 type result struct {
@@ -264,6 +329,7 @@ func runSchedule(sc Scenario, choices []int) result {
 	for _, p := range sc.Procs {
 		p := p
 		sched.Go(p.Name, func() {
+			hs := &handles{gate: func(point string) { sched.Gate(point) }}
 			for i, k := range p.Calls {
 				mark := fmt.Sprintf("%s.%d", p.Name, i+1)
 				lg.Add(vt.Ev{"ev": "call", "p": p.Name, "k": abstractKind(k), "kind": k})
@@ -274,9 +340,13 @@ func runSchedule(sc Scenario, choices []int) result {
 							err = fmt.Errorf("panic: %v", r)
 						}
 					}()
-					err = doCall(sess, k, mark, sc.Big)
+					err = doCall(sess, k, mark, sc.Big, hs)
 				}()
-				e := vt.Ev{"ev": "ret", "p": p.Name, "k": abstractKind(k), "class": errClass(err)}
+				cl := errClass(err)
+				if (k == "twclose2" || k == "twwrite2") && err == io.EOF {
+					cl = "eof" // what a closed token writer answers
+				}
+				e := vt.Ev{"ev": "ret", "p": p.Name, "k": abstractKind(k), "class": cl}
 				if err != nil {
 					e["err"] = err.Error()
 				}
@@ -307,9 +377,19 @@ func runSchedule(sc Scenario, choices []int) result {
 				// the reply is flushed and the lock released when the serve loop closes the
 				// deferred writer after the handler returns: "ret" is logged from the wire
 				return nil
+			case strings.HasPrefix(id, "heof"):
+				// a bare io.EOF: the handler reached the end of its element
+				lg.Add(vt.Ev{"ev": "handler", "item": "stanza_heof"})
+				return io.EOF
 			case strings.HasPrefix(id, "herr"):
-				lg.Add(vt.Ev{"ev": "handler", "item": "stanza_herr"})
-				return errors.New("handler failed")
+				kind := strings.TrimRight(strings.TrimPrefix(id, "herr"), "0123456789")
+				item := "stanza_herr"
+				if kind != "" {
+					item += "_" + kind
+				}
+				herr := handlerError(kind)
+				lg.Add(vt.Ev{"ev": "handler", "item": item, "err": herr.Error()})
+				return herr
 			}
 			lg.Add(vt.Ev{"ev": "handler", "item": "stanza"})
 			return nil
@@ -546,10 +626,31 @@ func main() {
 			continue
 		}
 		var lastRes result
-		n := vt.Explore(func(choices []int) vt.RunResult {
+		pre := maxPre
+		if sc.MaxPre > pre {
+			pre = sc.MaxPre
+		}
+		explore := vt.Explore
+		if oc := os.Getenv("OUT_CHOICES"); oc != "" {
+			// exactly one schedule (confirmation of a stall before it is reported)
+			var fixed []int
+			if err := json.Unmarshal([]byte(oc), &fixed); err != nil {
+				panic(err)
+			}
+			explore = func(run func(choices []int) vt.RunResult, _, _ int, each func(choices []int) bool) int {
+				run(fixed)
+				each(fixed)
+				return 1
+			}
+		}
+		n := explore(func(choices []int) vt.RunResult {
+			// (what is running, should the library bring the whole process down: a Go "fatal error" cannot be recovered)
+			if cur, err := json.Marshal(vt.Ev{"scenario": sc, "choices": choices}); err == nil {
+				os.WriteFile(os.Args[3]+".cur", cur, 0o644)
+			}
 			lastRes = runSchedule(sc, choices)
 			return lastRes.res
-		}, maxPre, capRuns(maxRuns, sc.MaxRuns), func(choices []int) bool {
+		}, pre, capRuns(maxRuns, sc.MaxRuns), func(choices []int) bool {
 			runs++
 			if lastRes.note == "stuck" {
 				stuck++
